@@ -30,12 +30,14 @@ Data(d) == IF d = 0 THEN { Atom(x) : x \in Atoms } \cup { [t |-> "list", es |-> 
 (* "decls" a bracket-less ';' list of declarations  w = VALUE  with VALUE as in "args" (the absent optional    *)
 (* list ends a chain of productions); "baremap" a bracket-less map at the top (no pairs = the empty text = {}); *)
 (* "rows" a bracketed ';' list whose items are bracket-less lists of words: [a, b; ; c] (an atom stands for the  *)
-(* row holding it, an empty list for an empty row)                                                             *)
+(* row holding it, an empty list for an empty row); "pre" as "args" but the (absent) optional list stands BEFORE *)
+(* the word: VALUE -> REC | LIST | MAP, REC -> [ARGS] WORD                                                      *)
 Opts == { [top |-> tp, delim |-> dl, afd |-> af, nullable |-> nu, mapafd |-> ma] :
-             tp \in {"value", "optional", "bare", "args", "decls", "baremap", "rows"}, dl \in BOOLEAN, af \in {"default", "yes", "no"}, nu \in BOOLEAN, ma \in BOOLEAN }
+             tp \in {"value", "optional", "bare", "args", "decls", "baremap", "rows", "pre"}, dl \in BOOLEAN, af \in {"default", "yes", "no"}, nu \in BOOLEAN, ma \in BOOLEAN }
 OptsOK(o) == /\ (o.afd = "yes" => o.delim) /\ (o.nullable => o.delim)
              /\ (o.top = "bare" => o.afd # "yes" /\ ~o.nullable)
              /\ (o.top = "baremap" => o.afd = "default" /\ ~o.nullable)
+             /\ (o.top = "pre" => o.afd = "default" /\ ~o.nullable)
              /\ (o.top = "rows" => o.afd = "default" /\ ~o.nullable /\ ~o.mapafd)
 FinalAllowed(o) == o.delim /\ o.afd # "no"
 
